@@ -189,6 +189,13 @@ def r4(ctx: Ctx) -> None:
     fpm = ctx.func(FSMAN, "FloorSetInstance._parse_modules")
     centroid = {t.id for st in walk_own(fpm.node) if isinstance(st, ast.Assign) and isinstance(st.value, ast.Call) and call_name(st.value) == "compute_centroid"
                 for t in st.targets if isinstance(t, ast.Name)}
+    # ... the same local named by what it is used for: the point whose coordinates are written as the module's centre
+    for st in walk_own(fpm.node):
+        if isinstance(st, ast.Assign) and len(st.targets) == 1 and isinstance(st.targets[0], ast.Subscript) and isinstance(st.value, (ast.List, ast.Tuple)) \
+                and len(st.value.elts) == 2 and all(isinstance(e, ast.Attribute) and isinstance(e.value, ast.Name) for e in st.value.elts) \
+                and [e.attr for e in st.value.elts] == ["x", "y"] and st.value.elts[0].value.id == st.value.elts[1].value.id \
+                and ast.unparse(st.targets[0].slice).strip("'\"") in ("KW_CENTER", kw_value(ctx, "KW_CENTER")):
+            centroid.add(st.value.elts[0].value.id)
     allow = {("FloorSetInstance._parse_modules", nm) for nm in centroid}
     targets = [(FSMAN, "FloorSetInstance._parse_modules"), (FSMAN, "FloorSetInstance._parse_connections"), (RECTIO, "solution_to_netlist"),
                (RECTIO, "get_netlist"), (LEGAL, "Model.get_netlist"), (DIE, "Die.write_yaml"), (ALLOC, "Allocation.write_yaml")]
